@@ -891,3 +891,68 @@ def r01l(ctx):
                 ctx.bad(f"{fq}->{K.name}:missing:{','.join(missing)}", mod.loc(call), f"`{unparse(call)[:90]}` builds {K.qual} without {missing}, which have no entry in {K.name}._defaults: the node is created, and the first read of the parameter raises (KeyError / IndexError) inside the optimizer or the graph construction")
     ctx.ok("constructions-by-name", "", f"{n} constructions bound against their class's _parameters / _defaults")
     ctx.floor("constructions by class name", n, 300)
+
+
+# ---------------------------------------------------------------------------------------------
+# R01m
+# ---------------------------------------------------------------------------------------------
+
+
+@rule(
+    "R01m",
+    ["C01", "C13", "C19"],
+    """A PARENT IS DROPPED ONLY AFTER READING WHAT IT WAS ASKED TO DO: `return self` in a `_simplify_up` replaces parent(self) by self -
+    the parent operation disappears from the plan. That is only sound when the guard has established, from the PARENT'S OWN PARAMETERS
+    (`parent.<p>` / `parent.operand('<p>')` with p declared by the class named in the isinstance test), that the parent asks for nothing
+    self does not already deliver. A derived quantity (`parent.npartitions == 1`) also holds for parents that were asked for something
+    else (a repartition to given divisions or by frequency that happens to have one partition), needs the parent's divisions -
+    i.e. an optimization inside the optimizer - to evaluate, and drops their effect.""",
+)
+def r01m(ctx):
+    model = ctx.model
+    n = 0
+    for c, m in own_methods(model, "_simplify_up"):
+        fn = m.node
+        if len(fn.args.args) < 2:
+            continue
+        par = fn.args.args[1].arg
+        for p in flow.returns(fn):
+            v = p.stmt.value
+            if not (isinstance(v, ast.Name) and v.id == "self"):
+                continue
+            n += 1
+            cid = f"{qual(c, fn)}:drops-parent"
+            facts = [(t, pol) for t, pol in flow.facts(p)]
+            classes = []
+            for t, pol in facts:
+                if pol and isinstance(t, ast.Call) and dotted(t.func) == "isinstance" and len(t.args) == 2 and ast.unparse(t.args[0]) == par:
+                    for kn in t.args[1].elts if isinstance(t.args[1], ast.Tuple) else [t.args[1]]:
+                        r = model.resolve_name(c.module, ast.unparse(kn))
+                        K = r[1] if r and r[0] == "class" else (model.find_cls(ast.unparse(kn)) or [None])[0]
+                        if K is not None:
+                            classes.append(K)
+            if not classes:
+                ctx.bad(cid, c.module.loc(p.stmt), f"`return self` drops the parent without an isinstance test that says what kind of operation is dropped")
+                continue
+            params = set()
+            for K in classes:
+                for h in model.subclasses(K):
+                    try:
+                        params |= set(model.parameters(h)[1:])
+                    except Exception:  # noqa: BLE001
+                        pass
+            read = set()
+            for t, pol in facts:
+                if not pol:
+                    continue
+                for x in ast.walk(t):
+                    if isinstance(x, ast.Attribute) and ast.unparse(x.value) == par and isinstance(x.ctx, ast.Load) and not (isinstance(getattr(x, "_parent", None), ast.Call) and x.attr == "operand") and x.attr != "_parameters":
+                        read.add(x.attr)
+                    if isinstance(x, ast.Call) and isinstance(x.func, ast.Attribute) and x.func.attr == "operand" and ast.unparse(x.func.value) == par and x.args and isinstance(x.args[0], ast.Constant):
+                        read.add(x.args[0].value)
+            derived = sorted(read - params)
+            if read & params and not derived:
+                ctx.ok(cid, c.module.loc(p.stmt), f"the parent is dropped after reading its parameter(s) {sorted(read & params)}")
+            else:
+                ctx.bad(cid, c.module.loc(p.stmt), f"`return self` drops the parent {[K.name for K in classes]} on the strength of {derived or 'no parent attribute at all'}, which is not one of its declared parameters {sorted(params)[:6]}...: a parent that was asked for something else (divisions, a frequency, a partition size) and merely happens to satisfy the test loses its effect, and evaluating a derived attribute of the parent runs the optimizer from inside a rewrite rule")
+    ctx.floor("rules that drop their parent", n, 2)
